@@ -32,6 +32,7 @@ with open(P + '.id', 'a') as f:
 while not os.path.exists(P):
     time.sleep(0.005)
 c = open(P).read().strip()
+open(P + '.ack', 'w').close()
 if c == 'raise':
     raise ValueError('verif')
 if c == 'exit':
@@ -63,6 +64,7 @@ class World:
         self.pids: list[int] = []
         self.procs: list = []
         self.auto_answer = self.cfg.get('answer', 'continue')   # None = leave prompts open
+        self.open_prompts: dict = {}
 
     # ---- observation
     def state(self):
@@ -119,6 +121,10 @@ def make_plugin(w: World, tag: str = 'G'):
                     info['prompt_no'] = getattr(ev, 'prompt_no', None)
             if hook == 'on_change_state':
                 info['state_name'] = kw.get('state_name')
+            if ev is not None and hook == 'on_start_prompt':
+                w.open_prompts[(ev.trace_no, ev.prompt_no)] = True
+            if ev is not None and hook == 'on_end_prompt':
+                w.open_prompts.pop((ev.trace_no, ev.prompt_no), None)
             if hook == 'send_command':
                 info['cmd'] = getattr(kw.get('command'), 'command', None)
             if hook == 'on_change_script':
@@ -300,6 +306,15 @@ async def run_scenario(w: World):
             w.tasks[name].put_nowait((api, args))
             # let the worker pick the call up and run to its first suspension
             await asyncio.sleep(0)
+        elif op == 'answer_open':
+            # answer (with step[1], default 'continue') every prompt that is open right now and that nothing has answered
+            for (tn, pn) in list(w.open_prompts):
+                w.log(k='call', task='H', api='send', args={'command': step[1] if len(step) > 1 else 'continue', 'prompt_no': pn, 'trace_no': tn})
+                try:
+                    await w.nl.send_pdb_command(step[1] if len(step) > 1 else 'continue', pn, tn)
+                    w.log(k='ret', task='H', api='send', res='ok')
+                except BaseException as e:
+                    w.log(k='ret', task='H', api='send', res=type(e).__name__)
         elif op == 'hops':
             for _ in range(step[1]):
                 await asyncio.sleep(0)
@@ -387,10 +402,19 @@ async def run_scenario(w: World):
             if w.alive():
                 w.log(k='child_still_alive')
         elif op == 'child_reset':
-            try:
-                os.unlink(w.ctl)
-            except FileNotFoundError:
-                pass
+            # the child must have READ the control file before it is withdrawn (under load the child can still be
+            # starting when the scenario gets here): wait for its acknowledgement while a child is alive
+            if os.path.exists(w.ctl):
+                t_end = time.time() + 8.0
+                while w.alive() and not os.path.exists(w.ctl + '.ack') and time.time() < t_end:
+                    await asyncio.sleep(0.01)
+                if w.alive() and not os.path.exists(w.ctl + '.ack'):
+                    w.log(k='ctl_not_acknowledged')
+            for f in (w.ctl, w.ctl + '.ack'):
+                try:
+                    os.unlink(f)
+                except FileNotFoundError:
+                    pass
         elif op == 'await':
             name = step[1]
             lim = step[2] if len(step) > 2 else 10.0
